@@ -45,7 +45,7 @@ func (s *c19scripted) Choose(existing hash.Events, options hash.Events) int {
 func runC19(c *ev.Ctx) {
 	c.Rule = "random existing-parent lists (0..5 distinct events), option lists (0..10 entries with duplicates and overlaps with the existing parents), strategy lists of 0..6 strategies mixing MetricStrategy (metric tables with ties, zeros and values >= 2^63), RandomStrategy and a scripted legal strategy; " +
 		"oracle = the clauses of the statement: result starts with the existing parents in order; then at most one new parent per strategy; no parent repeated; every new parent was offered; number of new parents = min(#strategies, #distinct options not already parents); strategies are only ever shown non-empty, duplicate-free options that exclude current parents; a MetricStrategy's pick has the maximal metric among the options it was shown. " +
-		"The existing parents are handed over as a prefix of a larger array whose tail must stay untouched, and a second selection from the same base must not change the first result; every fourth case has the all-zero hash in the pool. Plus reuse: one MetricStrategy object serves 2-4 selections in a row while the metric of the same events changes in between; each pick is maximal under the metric at that selection. " +
+		"The existing parents are handed over as a prefix of a larger array whose tail must stay untouched, and a second selection from the same base must not change the first result; every fourth case has the all-zero hash in the pool. The caller's options slice must come back unchanged. Plus direct calls of MetricStrategy.Choose with options overlapping the existing parents, and selections whose two arguments share one array (heads[:k], heads). Plus reuse: one MetricStrategy object serves 2-4 selections in a row while the metric of the same events changes in between; each pick is maximal under the metric at that selection. " +
 		"non-trivial = distinct inputs with >=2 existing parents of which one is also offered as option, >=2 strategies and a metric tie or a metric >= 2^63"
 	c.Assumptions = []string{"existing parents are distinct events (they are parents of one event)", "metric function is deterministic during one ChooseParents call (it may change between calls)"}
 	n := c.Pick(300000, 10000000)
@@ -55,6 +55,7 @@ func runC19(c *ev.Ctx) {
 			c19Case(c, r, w*1000000+i)
 			if i%8 == 0 {
 				c19Reuse(c, r, w*1000000+i)
+				c19Direct(c, r, w*1000000+i)
 			}
 		}
 	})
@@ -129,8 +130,9 @@ func c19Case(c *ev.Ctx, r *rand.Rand, caseN int) {
 	for k := range tail {
 		tail[k] = sentinel
 	}
+	optArg := append(hash.Events{}, options...)
 	if p, _ := ev.Try(func() {
-		res = ancestor.ChooseParents(base, append(hash.Events{}, options...), strategies)
+		res = ancestor.ChooseParents(base, optArg, strategies)
 	}); p != nil {
 		m := desc()
 		m["panic"] = fmt.Sprint(p)
@@ -142,6 +144,12 @@ func c19Case(c *ev.Ctx, r *rand.Rand, caseN int) {
 		m := desc()
 		m["result"], m["why"] = fmt.Sprint(res), why
 		c.Violation(class, m)
+	}
+	for k := range options {
+		if optArg[k] != options[k] {
+			fail("parent-not-offered", fmt.Sprintf("the selection rewrote the caller's options slice (position %d): what was offered is no longer what the caller holds", k))
+			return
+		}
 	}
 	for k := range tail {
 		if tail[k] != sentinel {
